@@ -18,4 +18,12 @@ PROPS = {
         "assumptions": ["parser contract: events are the flattening of document trees (theorems about trees); first_breach_kind holds for arbitrary event lists",
                         "physical bound: fewer than 2^64 events (makes the saturating depth increment exact)"],
     },
+    "C02": {
+        "lean_modules": ["SaphyrVerif.Props.C02"],
+        "harness": [("pump", "gen")],
+        "decisive": [],
+        "modelled": "live_events.rs LiveEvents::next_impl (recording frames, finalisation, inject stack, alias limits, document reset, look-ahead, reference_location, stop_at_doc_end), tag classification table",
+        "not_modelled": "name->id resolution of anchors (saphyr-parser; contract: fresh id per definition, alias id = most recent definition of that name); the scanner",
+        "assumptions": ["parser contract: items of a document are the flattening of a located tree; ids are fresh per anchor definition"],
+    },
 }
